@@ -27,6 +27,7 @@ func main() {
 		Property string `json:"property"`
 		Family   string `json:"family"`
 		CaseSeed uint64 `json:"case_seed"`
+		CaseIdx  int    `json:"case_idx"`
 		Tier     string `json:"tier"`
 	}
 	if *replay != "" {
@@ -83,7 +84,7 @@ func main() {
 			fmt.Println("replay file names a broken obligation/correspondence only; re-run the check to see whether it still fails")
 			os.Exit(0)
 		}
-		x.runFamilies(rp.Family, rp.CaseSeed, true)
+		x.runFamilies(rp.Family, rp.CaseSeed, true, rp.CaseIdx)
 		if len(x.fails) > 0 {
 			b, _ := json.MarshalIndent(x.fails, "", " ")
 			fmt.Println(string(b))
